@@ -12,6 +12,7 @@ from typing import Any, Dict, List, Optional
 from rpv.checks.inproc_util import candidate_days, clean_cut, get_ip, sched_from_json, sched_json
 from rpv.gen import METHODS, Profile, history, own_years, schedule
 from rpv.model import Model
+from rpv.workload import deepen
 from rpv.oracle.balance import is_valid
 from rpv.oracle.trace import check_yearly
 
@@ -112,7 +113,7 @@ def run_shard(ctx: Any) -> None:
     done = 0
     while done < share and (ctx.budget_s - ctx.time_left()) < ctx.budget_s * 0.75:
         rng = ctx.rng("case", index)
-        hist = history(rng, PROFILES[index % len(PROFILES)])
+        hist = history(rng, deepen(ctx, index, PROFILES[index % len(PROFILES)]))
         if is_valid(Model(hist)):
             years = own_years(hist)
             sched = {1970: rng.choice(METHODS)} if rng.random() < 0.7 else schedule(rng, years[0], years[-1])
